@@ -140,6 +140,19 @@ CLAIMED['C17'] = {
     'note': KERNEL + 'py2v and the specialised extractor in lib/props/C17.py; the expression bridge; evalI soundness (Proofs/EvalIP.v); PhiI_series trusted for normal CDF values.',
 }
 
+CLAIMED['C19'] = {
+    'technique': 'Rocq proof over a hand-written executable model (tie B: proved checkers run inside Coq on implementation outputs) + definitions regenerated from source (tie A)',
+    'text': ('Proved for every RNG outcome: the sample lists the chosen alternative first, has no duplicate, holds exactly k alternatives per stratum, all in that '
+             'stratum, and carries ln(k/n) and n/k; a boolean checker is proved equivalent to this specification; the combined variable defined by '
+             'rename_elementary evaluated on the flat row equals the formula evaluated on the individual\'s and alternative j\'s attributes; with k = n the sample is '
+             'a permutation of the choice set, the corrections vanish and the evalX value of the get_logit expression equals the full logit; Partition and '
+             'check_partition accept exactly the characterised inputs; generate_segment_size, the log-probability and weight formulas, the decrement and the '
+             'column names are regenerated from source each run and the proofs are about them. Ties: streams sample, full, validate, segsize plus direct Python '
+             'oracles. PARTIAL: nested and cross-nested full-sampling equality is tested, not proved.'),
+    'note': KERNEL + 'numpy/pandas sampling modelled as an arbitrary oracle; the ast extractor lib/impl/c19_gen.py; the harness float formula evaluator at '
+            'relative 1e-9; the cythonbiogeme engine for both sides of the likelihood comparison.',
+}
+
 _NOT_YET = 'check not built yet in this session (framework under construction); no claim made'
 NOT_APPLICABLE = {p: _NOT_YET for p in
                   ['C01', 'C02', 'C03', 'C04', 'C05', 'C06', 'C07', 'C08', 'C09', 'C10', 'C11', 'C12', 'C13',
